@@ -433,9 +433,15 @@ pub fn run_level_b(
                 let f = &world.files[i];
                 match &f.diff {
                     FileDiff::None | FileDiff::Deleted => write_file(&root, &f.path, &rendered[i].text),
-                    FileDiff::Insert { line, renamed_from } => {
+                    FileDiff::Insert { line, renamed_from, edit } => {
                         let mut lines = rendered[i].lines.clone();
-                        lines.remove(line - 1);
+                        match edit {
+                            LineEdit::Inserted => {
+                                lines.remove(line - 1);
+                            }
+                            LineEdit::Replaced { old } => lines[line - 1] = old.clone(),
+                            LineEdit::Removed { old } => lines.insert(line - 1, old.clone()),
+                        }
                         let base_path = renamed_from.as_deref().unwrap_or(&f.path);
                         write_file(&root, base_path, &(lines.join("\n") + "\n"));
                     }
@@ -462,7 +468,8 @@ pub fn run_level_b(
             }
             git(&root, &["add", "-N", "-f", "."])?;
             let rename_flag = if n_renames > 0 { "-M20%" } else { "--no-renames" };
-            git_diff = git(&root, &["diff", "HEAD", "-U0", "--no-color", "--no-ext-diff", rename_flag]);
+            let unified = format!("-U{}", world.diff_context);
+            git_diff = git(&root, &["diff", "HEAD", &unified, "--no-color", "--no-ext-diff", rename_flag]);
             git_diff.as_ref()?;
             Some(())
         })();
